@@ -6,6 +6,7 @@ import (
 	"sort"
 	"strings"
 	"time"
+	"tkestack.io/galaxy/pkg/ipam/api"
 
 	corev1 "k8s.io/api/core/v1"
 
@@ -151,6 +152,8 @@ func c09Scenarios(tier string) []*Scenario {
 		"add-ip":     c09Pools([]string{"10.10.1.1~10.10.1.4"}, nil),
 		"add-pool":   c09Pools([]string{"10.10.1.1~10.10.1.3"}, []string{"10.10.2.1"}),
 		"drop-first": c09Pools([]string{"10.10.1.2~10.10.1.3"}, nil),
+		// drops the address of the pod whose release runs next to the reload
+		"drop-second": c09Pools([]string{"10.10.1.1", "10.10.1.3"}, nil),
 	}
 	var out []*Scenario
 	base := world.Config{Pools: c1, Nodes: nodesN1N2}
@@ -164,7 +167,7 @@ func c09Scenarios(tier string) []*Scenario {
 		}
 	}
 	sts := wkClass{"sts", ""}
-	for _, tn := range []string{"add-ip", "add-pool", "drop-ip", "drop-first"} {
+	for _, tn := range []string{"add-ip", "add-pool", "drop-ip", "drop-first", "drop-second"} {
 		tn := tn
 		c2 := targets[tn]
 		out = append(out, &Scenario{Name: "reload-" + tn + "/vs-schedule", Class: "reload/" + tn, Cfg: base, Bounds: b, Weight: 3,
@@ -199,6 +202,32 @@ func c09Scenarios(tier string) []*Scenario {
 				x := sts.pod(0)
 				w.CreatePod(x)
 				return []Thread{{"reload", reload(w, c2)}, {"deliver-old", deliverAll(w, old)}, {"sched-x", scheduleRetry(w, x.Key(), 2)}}
+			},
+			Final: func(w *world.World) {
+				for len(w.Pending) > 0 {
+					w.Deliver(0)
+				}
+			}})
+	}
+	// the release API for a vanished pod's address next to a reload that drops / keeps that address
+	for _, tn := range []string{"drop-second", "drop-ip"} {
+		tn := tn
+		c2 := targets[tn]
+		out = append(out, &Scenario{Name: "reload-" + tn + "/vs-apirelease", Class: "reload/" + tn, Cfg: base, Bounds: b, Weight: 3,
+			Build: func(w *world.World) []Thread {
+				w.Configs = []string{c1}
+				sts.setWorkload(w, 3)
+				y, z := sts.pod(2), sts.pod(1)
+				w.CreatePod(y)
+				mustSchedule(w, y.Key())
+				w.CreatePod(z)
+				mustSchedule(w, z.Key())
+				w.MustKeep = map[string]string{"10.10.1.1": podKeyInDB(w, y.Key())}
+				w.DeletePod(z.Key())
+				takePending(w) // the delete notification is lost: the release API is the way to free the address
+				_, list := w.APIList("keyword=" + z.Name)
+				entries := append([]api.FloatingIP{}, list.Content...)
+				return []Thread{{"reload", reload(w, c2)}, {"apirelease", func() { w.APIRelease(entries) }}}
 			},
 			Final: func(w *world.World) {
 				for len(w.Pending) > 0 {
